@@ -36,9 +36,9 @@ def b2s (b : Bool) : String := if b then "1" else "0"
 def render (p : Prediction) (q : GS.Panics.Res.ResPrediction) : String :=
   if p.survived then
     let v := if p.fired then b2s p.valOK else "-"
-    s!"survived=1 fired={b2s p.fired} err={p.err} cb={p.cb} val={v} sibling={b2s p.sibling} late={b2s q.late} leak={b2s q.leak}"
+    s!"survived=1 fired={b2s p.fired} err={p.err} cb={p.cb} val={v} sibling={b2s p.sibling} late={b2s q.late} leak={b2s q.leak} res=tasks:{q.tasks},table:{q.table}"
   else
-    s!"survived=0 fired={b2s p.fired} err=- cb=- val=- sibling=- late=- leak=-"
+    s!"survived=0 fired={b2s p.fired} err=- cb=- val=- sibling=- late=- leak=- res=-"
 
 def valKinds : List String := ["str", "err", "rt-nilmap", "rt-nilptr", "rt-index", "struct"]
 
@@ -47,7 +47,7 @@ def inject (sd kd k n pre ls val lim : String) : String :=
   | some sd, some kd, some k, some n, some pre =>
     if n < 1 || n > 64 || k ≥ n || pre > n || !(ls == "def" || ls == "opt") || !valKinds.contains val
         || !(lim == "wide" || lim == "tight") then "bad-op"
-    else render (predict table sd kd k n pre) (GS.Panics.Res.predictRes sd kd k n pre)
+    else render (predict table sd kd k n pre) (GS.Panics.Res.predictRes sd kd k n pre (lim == "tight"))
   | _, _, _, _, _ => "bad-op"
 
 /-- `handler <value> <cb|nocb>`: panics.MakeHandler called directly; the model runs the generated
